@@ -354,9 +354,16 @@ def step(fn, d, n):
         return d
     if k in ('CallExpr', 'CXXMemberCallExpr', 'CXXOperatorCallExpr', 'CXXConstructExpr', 'CXXTemporaryObjectExpr'):
         pm = n.get('pmut')
-        for j, a in enumerate(fn.call_args(n)):
+        args = fn.call_args(n)
+        off = 0
+        if k == 'CXXOperatorCallExpr' and pm is not None and len(pm) == len(args) - 1:
+            off = 1          # member operator: the first operand is the object, not a parameter
+        for j, a in enumerate(args):
             v = var_of(fn, a)
-            if v is not None and (pm is None or j >= len(pm) or pm[j] != 'C' or n.get('unresolved')):
+            jj = j - off
+            if v is not None and (pm is None or jj < 0 or jj >= len(pm) or pm[jj] != 'C' or n.get('unresolved')):
+                if jj < 0 and pm is not None:
+                    continue      # an integer variable cannot be the object of a member operator
                 d.forget(v)
         # a non-const member call on this object may change integer fields
         if k == 'CXXMemberCallExpr' and n.get('org') == 'S' and not n.get('cconst'):
@@ -453,8 +460,11 @@ def rel_upper_bounds(fn, d, n):
         den = bounds(fn, d, fn.nodes[n['c'][1]])
         num = bounds(fn, d, fn.nodes[n['c'][0]])
         if den[0] is not None and den[0] >= 1 and num[0] is not None and num[0] >= 0:
-            # t / q <= t for t >= 0, q >= 1
-            out |= rel_upper_bounds(fn, d, fn.nodes[n['c'][0]])
+            # t / q <= t - (lo - lo // q)  for t >= lo >= 0, q >= 1   (t - t/q is non-decreasing in t)
+            q = den[0]
+            gain = num[0] - num[0] // q
+            for (v, c) in rel_upper_bounds(fn, d, fn.nodes[n['c'][0]]):
+                out.add((v, c - gain))
         b = bounds(fn, d, n)
         if b[1] is not None:
             out.add(('Z', b[1]))
